@@ -917,7 +917,7 @@ def _chunk(args):
 BOUNDARY = {
     'en-us': [
         "tel 138-2010-2015", "2010-2015", "from 2010 to 2015", "between 2014 and 2018", "in 1998 x", "the 21st century", "21st century",
-        "week of the 18th", "the month of june 3rd", "week of september.16th", "within 3 days from today", "less than 3 days from today",
+        "week of the 18th", "week of x week of 18th", "month of may or month of 18th", "the month of june 3rd", "week of september.16th", "within 3 days from today", "less than 3 days from today",
         "Feb 1st 2018 to march 3rd", "from 3pm to 4pm", "from 3:30 to 4", "from 3:30 to 4 people", "3 to 4pm", "between 3 and 5pm",
         "from 3 to 4pm and x from 3 to 4pm", "5 to 6 in the afternoon", "in the morning", "3pm to 4pm between", "dinnertime",
         "  past 3 hours", " next 3 hours", "3 hours previous", "3 hours  previous", "within the next 3 hours", "next 5 minutes", "2 upcoming hours",
